@@ -854,6 +854,49 @@ func (e *env) trCall(x *ECall) (Val, XT, error) {
 	case "emptyset", "emptymap":
 		// emptyset(K) / emptymap(K,V) are typed by context: need explicit sorts as string args
 		return nil, XT{}, e.errf("%s not supported; compare via forall", x.Fn)
+	case "reMatchLit":
+		// reMatchLit(G, s): the regexp held by package variable G (compiled from a literal) matches in s
+		id, ok := x.Args[0].(*EIdent)
+		if !ok {
+			return nil, XT{}, e.errf("reMatchLit(G, s): G must name a package-level regexp variable")
+		}
+		sv, _, err := argv(1)
+		if err != nil {
+			return nil, XT{}, err
+		}
+		key := e.pkgPath + "." + id.Name
+		if g.c.strMode {
+			lit, ok := g.P.reLits[key]
+			if !ok {
+				return nil, XT{}, e.errf("reMatchLit: %s is not initialised with regexp.MustCompile(literal)", key)
+			}
+			re, err := goRegexSearchSMT(lit)
+			if err != nil {
+				return nil, XT{}, e.errf("reMatchLit %s: %v", key, err)
+			}
+			g.used["regex-literal:"+key+"="+lit] = true
+			return app("str.in_re", sv, re), xtBool, nil
+		}
+		gv, gxt, err := e.tr(x.Args[0])
+		if err != nil {
+			return nil, XT{}, err
+		}
+		g.c.declareFun("u_reMatch", []string{gxt.S, "Str"}, "Bool")
+		return app("u_reMatch", gv.(string), sv), xtBool, nil
+	case "ciContains":
+		sv, _, err := argv(0)
+		if err != nil {
+			return nil, XT{}, err
+		}
+		lit, ok := x.Args[1].(*EStr)
+		if !ok {
+			return nil, XT{}, e.errf("ciContains(s, \"literal\")")
+		}
+		if g.c.strMode {
+			return app("str.in_re", sv, ciLiteralSearchSMT(lit.V)), xtBool, nil
+		}
+		g.c.declareFun("u_ciContains", []string{"Str", "Str"}, "Bool")
+		return app("u_ciContains", sv, g.c.strLit(lit.V)), xtBool, nil
 	case "contents":
 		v, xt, err := argv(0)
 		if err != nil {
